@@ -8,14 +8,15 @@ def check(rep):
     ctx = Ctx(rep)
     ER.rule_random_guarded(ctx)
     ER.rule_no_entropy(ctx)
-    d = ER.rule_hash_descriptor(ctx, rid="C01.HASH-PRIMITIVE")
-    ER.rule_no_shared_state(ctx, rid="C01.NO-SHARED-STATE")
+    ER.rule_hash_pure(ctx, rid="C01.HASH-PRIMITIVE")
+    ER.rule_value_keyed_caches(ctx, rid="C01.NO-VALUE-KEYED-CACHE")
+    ER.rule_retained_arguments(ctx, rid="C01.NO-RETAINED-ARGUMENT")
     ER.rule_call_forwards(ctx, rid="C01.CALL-FORWARDS")
-    ER.rule_installed_function(ctx, rid="C01.INSTALLED-FUNCTION")
-    PR.rule_compiles(ctx, rid="C01.SHAPE-COMPILES")
+    ER.rule_installed_function(ctx, rid="C01.INSTALLED-FUNCTION", strict=False, facets=("namespace", "installed"))
+    PR.rule_compiles(ctx, rid="C01.SHAPE-COMPILES", strict=False)
     n = PR.rule_key_order_independent(ctx)
     rep.floor("templates checked for set-order dependence", n, 180)
-    PR.rule_key(ctx, rid="C01.KEY")
+    PR.rule_key(ctx, rid="C01.KEY-NONE-IFF-NO-SPLITTERS", mode="none-iff")
     PR.rule_constant_skeleton(ctx, rid="C01.SKELETON-STATELESS")
     rep.assume("str() of str/int/float/bool/None is locale- and process-independent (CPython)")
     rep.assume("the sly runtime is excluded from the entropy rule: it iterates the `tokens` set and keys position maps by id() "
@@ -23,5 +24,5 @@ def check(rep):
     return ("Decides the structural conditions under which the returned group is a function of (source text, field values) only: "
             "the random branch is guarded by `key is None` on every path; the key template is None only without splitters; the hash "
             "position is hashlib over the key's encoding; no entropy/ambient source is called anywhere in the package (outside sly); "
-            "no function writes module/class state or keeps a cache; every set reaches generated text through sorted(); "
+            "no ==-keyed cache sits on a value path and no caller argument is retained in shared storage; every set reaches generated text through sorted(); "
             "__call__ only forwards to the function object compiled from the text; the generated skeleton is stateless.", TRUSTED)
